@@ -45,6 +45,13 @@
 //	                        realquiet.go: subscriptions ended through their context while the
 //	                        server holds the stream, decided by a structural hang verdict
 //	                        (process quiescent, sockets idle) instead of the guard.
+//	                        The same verdict decides "Subscribe of a PLAIN client returns once a
+//	                        Close call that found its established stream has returned".
+//	                        realctor.go: every exported constructor of client/gnmi (gnmi.New and
+//	                        an application-registered type built on gnmi.NewFromConn).
+//	        shape.go        the Go SHAPE of the scripted transport (pointer, struct value,
+//	                        not-comparable struct value, func type, map type) as a generated
+//	                        dimension of parts "random", "lifetime" and "entry".
 //	        callbacks.go    the constructor arguments of client.Reconnect: every combination
 //	                        of nil / given disconnect and reset callbacks, in every part that
 //	                        builds a reconnecting client; one shared judge of the callback
@@ -203,6 +210,10 @@ type Scenario struct {
 	Ctx string `json:"ctx,omitempty"`
 	// Target is informational (what the generator aimed StopAt at).
 	Target string `json:"target,omitempty"`
+	// Shape is the Go shape of the registered transport double (implShapes,
+	// shape.go): a pointer, a struct value, a struct value that is not
+	// comparable, a func or map type. It changes nothing in what the client owes.
+	Shape string `json:"impl_shape,omitempty"`
 }
 
 func (sc *Scenario) subInstant() time.Duration  { return time.Duration(sc.SubAt)*Unit + subOffset }
@@ -231,13 +242,14 @@ var defaultAttempt = Attempt{Conn: "ok", Sub: "ok", End: "block"}
 
 // clientTypes is the clientType argument of every Subscribe call of the case.
 func (sc *Scenario) clientTypes() []string {
+	typ := shapedType(sc.Shape)
 	switch {
 	case sc.Decoy == "":
-		return []string{implType}
+		return []string{typ}
 	case sc.DecoyFirst:
-		return []string{decoyType, implType}
+		return []string{decoyType, typ}
 	}
-	return []string{implType, decoyType}
+	return []string{typ, decoyType}
 }
 
 func (sc *Scenario) attempt(i int) Attempt {
@@ -275,6 +287,9 @@ func (sc *Scenario) validate() error {
 	}
 	if !knownCtxKind(sc.Ctx) {
 		return fmt.Errorf("context shape %q", sc.Ctx)
+	}
+	if !knownImplShape(sc.Shape) {
+		return fmt.Errorf("transport shape %q", sc.Shape)
 	}
 	if len(sc.Attempts) > 64 {
 		return fmt.Errorf("too many attempts")
